@@ -24,6 +24,7 @@ type feas struct {
 	reach    map[*ssa.BasicBlock]bool
 	sawLeaf  bool
 	nilConst bool // the nil constant evaluates to a value of its own (for "err == nil" under a forced error)
+	heapFwd  bool // a load of a field the function stores exactly once evaluates to the stored value (h.Len = count; … i < h.Len)
 }
 
 func (fe *feas) eval(v ssa.Value, depth int) (constant.Value, bool) {
@@ -52,11 +53,57 @@ func (fe *feas) eval(v ssa.Value, depth int) (constant.Value, bool) {
 				return constant.MakeBool(!constant.BoolVal(r)), true
 			}
 		}
+		if x.Op == token.MUL && fe.heapFwd {
+			if fa, ok := x.X.(*ssa.FieldAddr); ok {
+				var stored ssa.Value
+				n := 0
+				for _, b := range fe.f.Blocks {
+					for _, in := range b.Instrs {
+						if st, ok := in.(*ssa.Store); ok {
+							if fa2, ok := st.Addr.(*ssa.FieldAddr); ok && fa2.Field == fa.Field && sameEntryAddr(fa2.X, fa.X, 0) {
+								stored = st.Val
+								n++
+							}
+						}
+					}
+				}
+				if n == 1 {
+					return fe.eval(stored, depth+1)
+				}
+			}
+		}
 	case *ssa.BinOp:
 		switch x.Op {
+		case token.ADD, token.SUB:
+			if fe.heapFwd {
+				a, oka := fe.eval(x.X, depth+1)
+				b, okb := fe.eval(x.Y, depth+1)
+				if oka && okb && a.Kind() == constant.Int && b.Kind() == constant.Int {
+					return constant.BinaryOp(a, x.Op, b), true
+				}
+			}
 		case token.EQL, token.NEQ, token.LSS, token.LEQ, token.GTR, token.GEQ:
 			a, oka := fe.eval(x.X, depth+1)
 			b, okb := fe.eval(x.Y, depth+1)
+			// nothing unsigned is below zero
+			if isUnsigned(x.X.Type()) {
+				if oka && !okb && a.Kind() == constant.Int && constant.Sign(a) == 0 {
+					switch x.Op {
+					case token.GTR:
+						return constant.MakeBool(false), true
+					case token.LEQ:
+						return constant.MakeBool(true), true
+					}
+				}
+				if okb && !oka && b.Kind() == constant.Int && constant.Sign(b) == 0 {
+					switch x.Op {
+					case token.LSS:
+						return constant.MakeBool(false), true
+					case token.GEQ:
+						return constant.MakeBool(true), true
+					}
+				}
+			}
 			if oka && okb && a.Kind() == b.Kind() && a.Kind() != constant.Unknown {
 				if a.Kind() == constant.Bool {
 					if x.Op == token.EQL || x.Op == token.NEQ {
@@ -66,6 +113,10 @@ func (fe *feas) eval(v ssa.Value, depth int) (constant.Value, bool) {
 				}
 				return constant.MakeBool(constant.Compare(a, x.Op, b)), true
 			}
+		}
+	case *ssa.Call:
+		if bi, ok := x.Common().Value.(*ssa.Builtin); ok && bi.Name() == "len" && fe.heapFwd && len(x.Common().Args) == 1 {
+			return fe.evalLen(x.Common().Args[0], depth+1)
 		}
 	case *ssa.Phi:
 		var val constant.Value
@@ -104,7 +155,11 @@ func feasibleUnder(f *ssa.Function, leaf func(ssa.Value) (constant.Value, bool))
 // back into start are not taken: executing it again yields fresh values, to
 // which the forcing does not apply.
 func feasibleFrom(f *ssa.Function, start *ssa.BasicBlock, nilConst bool, leaf func(ssa.Value) (constant.Value, bool)) *feas {
-	fe := &feas{f: f, leaf: leaf, nilConst: nilConst, feasible: map[[2]*ssa.BasicBlock]bool{}, reach: map[*ssa.BasicBlock]bool{}}
+	return feasibleFromOpt(f, start, nilConst, false, leaf)
+}
+
+func feasibleFromOpt(f *ssa.Function, start *ssa.BasicBlock, nilConst, heapFwd bool, leaf func(ssa.Value) (constant.Value, bool)) *feas {
+	fe := &feas{f: f, leaf: leaf, nilConst: nilConst, heapFwd: heapFwd, feasible: map[[2]*ssa.BasicBlock]bool{}, reach: map[*ssa.BasicBlock]bool{}}
 	fe.reach[start] = true
 	work := []*ssa.BasicBlock{start}
 	for len(work) > 0 {
@@ -168,4 +223,50 @@ func (fe *feas) live(v ssa.Value) bool {
 		return false
 	}
 	return walk(v)
+}
+
+// evalLen: the length of a slice value built by make / re-slicing / merging.
+func (fe *feas) evalLen(v ssa.Value, depth int) (constant.Value, bool) {
+	if depth > 8 {
+		return nil, false
+	}
+	switch x := v.(type) {
+	case *ssa.MakeSlice:
+		return fe.eval(x.Len, depth+1)
+	case *ssa.Slice:
+		if x.High == nil {
+			return nil, false
+		}
+		hi, ok := fe.eval(x.High, depth+1)
+		if !ok || hi.Kind() != constant.Int {
+			return nil, false
+		}
+		if x.Low == nil {
+			return hi, true
+		}
+		lo, ok := fe.eval(x.Low, depth+1)
+		if !ok || lo.Kind() != constant.Int {
+			return nil, false
+		}
+		return constant.BinaryOp(hi, token.SUB, lo), true
+	case *ssa.ChangeType:
+		return fe.evalLen(x.X, depth+1)
+	case *ssa.Phi:
+		var val constant.Value
+		for i, e := range x.Edges {
+			if !fe.feasible[[2]*ssa.BasicBlock{x.Block().Preds[i], x.Block()}] {
+				continue
+			}
+			r, ok := fe.evalLen(e, depth+1)
+			if !ok {
+				return nil, false
+			}
+			if val != nil && !constant.Compare(val, token.EQL, r) {
+				return nil, false
+			}
+			val = r
+		}
+		return val, val != nil
+	}
+	return nil, false
 }
